@@ -104,7 +104,7 @@ func TestC19_IdentitiesAndPointer(t *testing.T) {
 	rec.AddRule("rapid state machine over one Gnosis keyper (real schema on pgfake; verif-tagged constructor): queues of 0..N transactions over 1-2 keyper sets with gas at MinGasPerTransaction / around EncryptedGasLimit/k / at and above the limit (always >= MinGasPerTransaction, the configured lower bound), pointer rows {absent, before, inside, at, beyond the queue end} x age {0, max, max+1, unknown}; actions: slot trigger (age increment as maybeTriggerDecryption does, then the real triggerDecryption), keys received (real DecryptionKeysHandler.HandleMessage), keys self-produced (real middleware SendMessage), restart (ResetAllTxPointerAges), queue grows. Oracle: reference selection written from the statement (pointer used; slot identity + queue entries from the pointer while cumulative gas <= limit, at least one; sorted, slot identity first); the trigger on the channel and the current_decryption_trigger row (slot, pointer, keccak of identities) equal the reference; a second keyper on a clone of the database produces a byte-identical list; after a keys message with k keys at pointer p the row is (p+k-1, age 0). non-trivial = selection stopped by the gas limit, used the at-least-one rule, or fell back to the queue length; distinct by history")
 	rec.Assume("pgfake; transaction identity prefixes are non-zero so the slot identity sorts first (the SSZ type and contract fix sizes; see DESIGN C19)")
 	ctx := context.Background()
-	runRapid(t, N(1000, 20000), func(rt *rapid.T) {
+	runRapid(t, N(1000, 500000), func(rt *rapid.T) {
 		me := 0
 		cfgG := gnosisConfigFor(me, 100)
 		cfgG.Gnosis.EncryptedGasLimit = uint64(rapid.SampledFrom([]int{100_000, 250_000, 1_000_000}).Draw(rt, "gasLimit"))
